@@ -42,12 +42,16 @@ def main():
                 raise InfraError("leanchecker rejected the compiled proofs: " + (p.stdout + p.stderr)[-1500:])
         mod = importlib.import_module(f"harness.props.{prop.lower()}")
         rule = mod.run(ctx)
-        if lean.get("generated_broken") and prop in getattr(mod, "USES_GENERATED", ()):
+        wiring = {"Generated.Wiring", "PtaProofs.Props.TablesWiring"}
+        gb = set(lean.get("generated_broken") or ())
+        mine = (gb & wiring) if prop == "C04" else (gb - wiring)
+        if mine and prop in getattr(mod, "USES_GENERATED", ()):
             # the proof obligation regenerated from the source no longer checks
             ctx.broken.insert(0, {"kind": "proof-obligation-broken",
                                   "what": "lake build fails on the obligation regenerated from the Python source",
-                                  "theorem": "Pta.C12.generated_flags_agree / Pta.C13.generated_config_agree (PtaProofs/Props/Tables.lean) over lean/Generated/*.lean",
-                                  "targets": lean["generated_broken"], "log": lean.get("build_log", "")[-1500:]})
+                                  "theorem": ("Pta.C04.generated_wiring_agree (PtaProofs/Props/TablesWiring.lean) over lean/Generated/Wiring.lean" if prop == "C04" else
+                                              "Pta.C12.generated_flags_agree / Pta.C13.generated_config_agree (PtaProofs/Props/Tables.lean) over lean/Generated/*.lean"),
+                                  "targets": sorted(mine), "log": lean.get("build_log", "")[-1500:]})
         code = finish(ctx, lean, rule, getattr(mod, "ASSUMPTIONS", ()))
         print(f"[{prop}] tier={a.tier} seed={seed} evaluations={sum(s['evaluations'] for s in ctx.streams)} "
               f"violations={len(ctx.violations)} broken={len(ctx.broken)} wall={time.time()-ctx.t0:.1f}s exit={code}")
